@@ -32,7 +32,21 @@ _FLOAT_TAGS = ('float', 'np.float64')
 _INT_TAGS = ('int',)
 
 
+def _unalias(c):
+    """Inside loaded modules the names int/float are our symbolic-aware
+    replacements; map them back when they are used as *types*."""
+    if c is core.sym_float:
+        return float
+    if c is core.sym_int:
+        return int
+    return c
+
+
 def sym_isinstance(obj, cls):
+    if isinstance(cls, tuple):
+        cls = tuple(_unalias(c) for c in cls)
+    else:
+        cls = _unalias(cls)
     if isinstance(obj, Sym):
         classes = cls if isinstance(cls, tuple) else (cls,)
         for c in classes:
